@@ -21,10 +21,7 @@ let hq_dump () = Printf.printf "hp n=%d first=%d last=%d lib=%d\n" (iz !hq.hcnt)
 let faulted = ref false
 let sg = ref { c_k = zi 12; c_w = zi 8; c_t1 = zi 15; c_t2 = zi 10; c_t3 = zi 20; c_interrog = false; c_hret = false; c_burst = zi 0;
                c_bsize = zi 0; c_term = false; c_reqret = true }
-let sc = ref (new_conn !sg (zi 0) (zi 0))
-let sq = ref (hp_new (zi 2))
-let smq = ref (mq_new (zi 2))
-let stab : (z * z) list ref = ref []
+let srs = ref { r_c = new_conn !sg (zi 0) (zi 0); r_hq = hp_new (zi 2); r_q = mq_new (zi 2); r_t = [] }
 let () =
   iter_lines (fun line ->
     match words line with
@@ -74,45 +71,41 @@ let () =
          | _ -> ());
         hq_dump ()
     | "sch" :: sub :: rest ->
-        (* the scheduler with the literal ring (Cs104/SchedRing.v): sendASDUInternal / sendWaitingASDUs on one connection *)
+        (* the scheduler with the literal rings: every command is one operation of the history machine `rstep` of Cs104/SchedHist.v
+           (sendASDUInternal / sendWaitingASDUs / release loop / enqueue / connection end on one connection) *)
         let x = (match rest with a :: _ -> int_of_string a | [] -> 0) in
         let y = (match rest with _ :: b :: _ -> int_of_string b | _ -> 0) in
         let zq = (match rest with _ :: _ :: c :: _ -> int_of_string c | _ -> 2) in
         let o = ref [] in
+        let step op tag =
+          (match rstep !sg (zi 0) !srs op with
+           | Ok (r', (ob, ret)) ->
+               srs := r'; o := ob;
+               (match tag, ret with
+                | "resp", Some b -> Printf.printf "schresp %d\n" (b2i b)
+                | "drain", _ -> print_endline "schdrain"
+                | _ -> ())
+           | Fault w -> Printf.printf "FAULT sch%s %d\n" tag (iz w)) in
         (match sub with
          | "new" ->
              sg := { c_k = zi x; c_w = zi 8; c_t1 = zi 15; c_t2 = zi 10; c_t3 = zi 20; c_interrog = false; c_hret = false; c_burst = zi 0;
                      c_bsize = zi 0; c_term = false; c_reqret = true };
-             sc := { (new_conn !sg (zi 0) (zi 0)) with st = zi 1; running = true };
-             sq := hp_new (zi y); smq := mq_new (zi zq); stab := []; aid := 0
-         | "ev" ->
-             (match mq_enqueue !smq (mk_asdu x !aid) with Ok q -> smq := q | Fault w -> Printf.printf "FAULT schev %d\n" (iz w)); incr aid
-         | "rearm" ->
-             (match mq_reset_waiting !smq with Ok q -> smq := q | Fault w -> Printf.printf "FAULT schrearm %d\n" (iz w));
-             sc := { !sc with kbuf = [] }
-         | "resp" ->
-             (match send_asdu_internal_r !sg (zi 0) !sc !sq (mk_asdu x !aid) with
-              | Ok (((c', q'), r), o') -> sc := c'; sq := q'; o := o'; Printf.printf "schresp %d\n" (b2i r)
-              | Fault w -> Printf.printf "FAULT schresp %d\n" (iz w));
-             incr aid
-         | "drain" ->
-             (match send_waiting_rr !sg (zi 0) !sc !sq !smq !stab with
-              | Ok ((((c', hq'), q'), t'), o') -> sc := c'; sq := hq'; smq := q'; stab := t'; o := o'; print_endline "schdrain"
-              | Fault w -> Printf.printf "FAULT schdrain %d\n" (iz w))
-         | "ack" ->
-             (* the release loop of checkSequenceNumber for the x oldest entries of the k-buffer (confirms their event entries in the ring) *)
-             let x = min x (List.length !sc.kbuf) in
-             (match release_r (nat_of_int x) !sc.kbuf !stab !smq with
-              | Ok (kb, q') -> sc := { !sc with kbuf = kb }; smq := q'
-              | Fault w -> Printf.printf "FAULT schack %d\n" (iz w))
-         | "wmode" -> sc := { !sc with wmode = zi x }
-         | "stop" -> sc := { !sc with st = zi 0 }
+             srs := { r_c = { (new_conn !sg (zi 0) (zi 0)) with st = zi 1; running = true }; r_hq = hp_new (zi y); r_q = mq_new (zi zq); r_t = [] };
+             aid := 0
+         | "ev" -> step (SEnq (mk_asdu x !aid)) "ev"; incr aid
+         | "rearm" -> step SEnd "rearm"
+         | "resp" -> step (SResp (mk_asdu x !aid)) "resp"; incr aid
+         | "drain" -> step SRound "drain"
+         | "ack" -> step (SAck (nat_of_int (min x (List.length !srs.r_c.kbuf)))) "ack"
+         | "wmode" -> step (SWmode (zi x)) "wmode"
+         | "stop" -> step (SState (zi 0)) "stop"
          | _ -> ());
         print_string "sch tx=";
         List.iter (fun ob -> match ob with
                              | OTx (_, b) -> if List.length b >= 14 then Printf.printf "%d," ((iz (List.nth b 12)) lor ((iz (List.nth b 13)) lsl 8)) else print_string "u,"
                              | _ -> ()) !o;
-        Printf.printf " k=%d run=%d hp n=%d first=%d last=%d lib=%d\n" (List.length !sc.kbuf) (b2i !sc.running) (iz !sq.hcnt) (iz !sq.hfirst) (iz !sq.hlast) (iz !sq.hlib);
-        mq_dump_of smq
+        let sc = !srs.r_c and sq = !srs.r_hq in
+        Printf.printf " k=%d run=%d hp n=%d first=%d last=%d lib=%d\n" (List.length sc.kbuf) (b2i sc.running) (iz sq.hcnt) (iz sq.hfirst) (iz sq.hlast) (iz sq.hlib);
+        mq_dump_of (ref !srs.r_q)
     | [] -> ()
     | _ -> ())
